@@ -110,6 +110,14 @@ def statOf (sc : Json) (all : List Sib) (s : Sib) : Stat D F :=
       let pp := rawOf (tickAt (jarr sc "parent") last)
       let sum := (all.map fun x => rawOf (x.at last)).foldl (· + ·) 0
       normalizedProtection (D := D) raw pp sum
+    else if jnat sc "depth" == 3 then
+      -- the parent's own share: P(parent) = R(parent) * min(1, P(grandparent) / (R(parent) + R(uncle))), P(grandparent) = R
+      let rp := rawOf (tickAt (jarr sc "parent") last)
+      let ru := rawOf (tickAt (jarr sc "uncle") last)
+      let pg := rawOf (tickAt (jarr sc "gparent") last)
+      let pp := normalizedProtection (D := D) rp pg (rp + ru)
+      let sum := (all.map fun x => rawOf (x.at last)).foldl (· + ·) 0
+      normalizedProtection (D := D) raw pp sum
     else raw
   let curs := (List.range (n - s.born)).map fun i => fInt (s.at (s.born + i)) "cur"
   let avg :=
@@ -466,13 +474,24 @@ def handle (j : Json) : Json :=
       let admLegacy := modelAdmits Float Float32 Variant.legacy sc statsF order
       let admR := modelAdmits Rat Rat Variant.fixed sc statsR order
       let raws := targets.map (rawOfSib sc tr)
-      let v : Verdict := match plugin with
-        | "kill_by_memory_size_or_growth" => judgeGrowth sc raws order
-        | "kill_by_swap_usage" => judgeSwap sc raws order
-        | "kill_by_pressure" => judgePressure sc raws order
-        | "kill_by_io_cost" => judgeIoCost raws order
-        | "kill_by_pg_scan" => judgePgScan raws order
-        | _ => { viol := ["unknown_plugin"] }
+      let judge := fun (rs : List Raw) => match plugin with
+        | "kill_by_memory_size_or_growth" => judgeGrowth sc rs order
+        | "kill_by_swap_usage" => judgeSwap sc rs order
+        | "kill_by_pressure" => judgePressure sc rs order
+        | "kill_by_io_cost" => judgeIoCost rs order
+        | "kill_by_pg_scan" => judgePgScan rs order
+        | _ => ({ viol := ["unknown_plugin"] } : Verdict)
+      let v0 : Verdict := judge raws
+      -- the policy is stated over the *documented* protection and moving average (hierarchically distributed protection,
+      -- C15's formulas over the files): when the implementation reports other values for them, the choice is judged again
+      -- with the reference values - a victim that is only right for wrongly computed statistics is not the documented one
+      let raws2 := (raws.zip statsF).map fun (r, m) => { r with prot := m.prot, avg := m.avg }
+      let differ := (raws.zip raws2).any fun (a, b) => a.prot != b.prot || a.avg != b.avg
+      let v2 : Verdict := if differ then judge raws2 else v0
+      let v : Verdict :=
+        if v0.viol.isEmpty && !v2.viol.isEmpty && !v2.rounding then
+          { v2 with viol := v2.viol.map (· ++ ".with_documented_statistics"), cls := v2.cls ++ "-with-documented-statistics" }
+        else v0
       let accepts := inputOK && diffs.isEmpty && admF
       verdict id accepts v.viol.isEmpty v.viol v.cls
         [("stat_diffs", mkStrs diffs), ("model_admits", Json.bool admF), ("legacy_admits", Json.bool admLegacy),
